@@ -408,6 +408,10 @@ var _ = wire.RegisterInterface(
 
 // TODO: ensure that bz is completely read.
 func DecodeMessage(bz []byte) (msgType byte, msg BlockchainMessage, err error) {
+	if len(bz) == 0 {
+		err = errors.New("DecodeMessage: empty message")
+		return
+	}
 	msgType = bz[0]
 	n := int(0)
 	r := bytes.NewReader(bz)
